@@ -533,6 +533,9 @@ pub fn zoo() -> Vec<Entry> {
 	add!(v; full: String, Box<u32>, Box<String>, Box<[u8; 100]>, Box<Vec<u16>>, Box<()>, Rc<u64>, Rc<Vec<u8>>, Rc<[u32; 4]>,
 		Arc<u16>, Arc<String>, Arc<(u8, Vec<u8>)>, Box<Box<u8>>, Box<Option<Box<u16>>>, Rc<Arc<Box<u32>>>,
 		Box<[Box<u16>; 5]>, Vec<Box<u8>>, Option<Box<[u64; 3]>>);
+	// Result with the longer side on Ok, on Err, and nested (C13: the tag byte is added to the longer side)
+	add!(v; full: Result<u32, u8>, Result<u128, ()>, Result<Compact<u64>, bool>, Option<Result<u64, u8>>, [Result<u16, ()>; 2],
+		(Result<u32, u8>, u8), Result<Result<u64, u8>, u16>, Result<(), u64>, Result<[u8; 9], Option<u8>>);
 	add!(v; full: Cow<'static, u32>, Cow<'static, String>);
 	add!(v; codec: Cow<'static, [u16]>, Cow<'static, str>, Cow<'static, [String]>);
 	add!(v; enc: RefOf<u32>, RefOf<Vec<u8>>, RefOf<String>, RefRefOf<u64>, RefRefOf<(u8, String)>, MutRefOf<u16>, MutRefOf<Vec<u32>>,
@@ -598,7 +601,8 @@ pub fn zoo() -> Vec<Entry> {
 			Option<u8>, Option<bool>, Option<Option<u32>>, Result<u8, bool>, Result<Option<u16>, Result<bool, u64>>,
 			Option<Compact<u32>>, Option<NonZeroU16>, Range<Compact<u64>>, [Option<u8>; 3], [Compact<u32>; 4],
 			(Compact<u8>, Compact<u128>), (Compact<u64>,), Arc<u16>, Box<Option<Box<u16>>>, Option<Box<[u64; 3]>>,
-			Box<[Box<u16>; 5]>);
+			Box<[Box<u16>; 5]>, Result<u32, u8>, Result<u128, ()>, Result<Compact<u64>, bool>, Option<Result<u64, u8>>, [Result<u16, ()>; 2],
+			(Result<u32, u8>, u8), Result<Result<u64, u8>, u16>, Result<(), u64>, Result<[u8; 9], Option<u8>>);
 		#[cfg(feature = "derive")]
 		{
 			use crate::derived::*;
